@@ -322,7 +322,7 @@ fn bump(c: &mut BTreeMap<&'static str, u64>, k: &'static str) {
 /// Returns (kind, detail) pairs. `keys0` = the model's alive set before the call.
 pub fn compare_obs<const N: usize>(g: &Sodg<N>, m: &Model, labels: &[u8]) -> Vec<(String, String)> {
     let mut out = vec![];
-    let keys = match guarded(|| g.keys()) {
+    let keys = match guarded(|| crate::real::keys_sorted(g)) {
         Ok(k) => k,
         Err(e) => {
             out.push(("panic-keys".to_string(), format!("keys() panicked: {e}")));
@@ -419,7 +419,7 @@ pub fn drain_probe<const N: usize>(g: &Sodg<N>, m: &Model, desc: bool) -> Vec<Fi
                 }
             }
         }
-        let keys = guarded(|| gc.keys()).unwrap_or_default();
+        let keys = guarded(|| crate::real::keys_sorted(&gc)).unwrap_or_default();
         let mk = mc.keys();
         if keys != mk {
             let lost: Vec<usize> = before.iter().filter(|x| !keys.contains(x) && mk.contains(x)).copied().collect();
@@ -449,7 +449,7 @@ pub fn drain_trace_owned<const N: usize>(mut gc: Sodg<N>, order: &[usize], desc:
         order.reverse();
     }
     for v in order {
-        let present = guarded(|| gc.keys()).unwrap_or_default();
+        let present = guarded(|| crate::real::keys_sorted(&gc)).unwrap_or_default();
         if !present.contains(&v) {
             continue;
         }
@@ -459,7 +459,7 @@ pub fn drain_trace_owned<const N: usize>(mut gc: Sodg<N>, order: &[usize], desc:
                 out.push(format!("data({v}) panicked: {e}"));
                 break;
             }
-            Ok(r) => out.push(format!("data({v})={r:?} then keys()={:?}", guarded(|| gc.keys()).unwrap_or_default())),
+            Ok(r) => out.push(format!("data({v})={r:?} then keys()={:?}", guarded(|| crate::real::keys_sorted(&gc)).unwrap_or_default())),
         }
     }
     out
@@ -565,7 +565,7 @@ pub fn check_transition<const N: usize>(
     for (kind, detail) in compare_obs(g1, m1, labels) {
         match kind.as_str() {
             "alive-mismatch" => {
-                let keys = guarded(|| g1.keys()).unwrap_or_default();
+                let keys = guarded(|| crate::real::keys_sorted(g1)).unwrap_or_default();
                 let mk = m1.keys();
                 let lost: Vec<usize> = keys0.iter().filter(|x| !keys.contains(x) && mk.contains(x)).copied().collect();
                 let stuck: Vec<usize> = keys.iter().filter(|x| !mk.contains(x) && keys0.contains(x)).copied().collect();
